@@ -1,0 +1,113 @@
+//go:build verif
+
+// Contracts for the verification machinery in /verif (comment-only; no declarations).
+
+package autonatv2
+
+// ---------------------------------------------------------------------------
+// C16: AutoNAT v2 server. ghost.consumed(r) = number of bytes reader r has handed out so far.
+
+//@ func (m *msgReader) ReadMsg
+//@ prop C16
+//@ requires m.R != nil
+//@ loop 0 invariant 0 <= n && n <= sz && sz <= len(m.Buf) && ghost.consumed(m.R) >= old(ghost.consumed(m.R)) + n
+//@ loop 0 invariant forall x int :: ghost.consumed(x) >= old(ghost.consumed(x))
+//@ ensures result1 == nil ==> ghost.consumed(m.R) >= old(ghost.consumed(m.R)) + len(result0)
+//@ ensures forall x int :: ghost.consumed(x) >= old(ghost.consumed(x))
+//@ modifies ghost.consumed(_), elems(m.Buf)
+
+//@ func readDialData
+//@ prop C16
+//@ requires r != nil
+//@ loop 0 invariant ghost.consumed(r) >= old(ghost.consumed(r)) + (numBytes - remain) && mr.R == r
+//@ loop 0 invariant forall x int :: ghost.consumed(x) >= old(ghost.consumed(x))
+//@ ensures result == nil ==> ghost.consumed(r) >= old(ghost.consumed(r)) + numBytes
+//@ ensures forall x int :: ghost.consumed(x) >= old(ghost.consumed(x))
+//@ modifies ghost.consumed(_), elems(_)
+
+//@ func getDialData
+//@ prop C16
+//@ requires s != nil
+//@ ensures result == nil ==> ghost.consumed(s) >= old(ghost.consumed(s)) + minHandshakeSizeBytes
+//@ ensures result == nil ==> called(WriteMsg, 0) && ret(WriteMsg, 0, 0) == nil
+//@ ensures forall x int :: ghost.consumed(x) >= old(ghost.consumed(x))
+//@ modifies ghost.consumed(_), elems(_), *msg
+
+//@ func amplificationAttackPrevention
+//@ prop C16
+//@ ensures !result ==> nth(manet.ToIP(observedAddr), 1) == nil && nth(manet.ToIP(dialAddr), 1) == nil
+
+//@ pred sortedReqs(r *rateLimiter) = (forall i int, j int :: 0 <= i && i < j && j < len(r.reqs) ==> r.reqs[i].Time <= r.reqs[j].Time) &&
+//@     (forall i int, j int :: 0 <= i && i < j && j < len(r.dialDataReqs) ==> r.dialDataReqs[i] <= r.dialDataReqs[j])
+//@ const MINUTE = 60000000000
+
+//@ func (r *rateLimiter) cleanup
+//@ prop C16
+//@ loop 0 invariant 0 <= idx0 && idx0 <= len(r.reqs) && idx == len(r.reqs) && len(r.reqs) == len(old(r.reqs)) &&
+//@         (forall k int :: 0 <= k && k < len(r.reqs) ==> r.reqs[k].Time == old(r.reqs[k].Time) && r.reqs[k].PeerID == old(r.reqs[k].PeerID)) &&
+//@         (forall k int :: 0 <= k && k < idx0 ==> now - r.reqs[k].Time >= MINUTE)
+//@ loop 1 invariant true
+//@ loop 2 invariant 0 <= idx2 && idx2 <= len(r.dialDataReqs) && idx == len(r.dialDataReqs) &&
+//@         (forall k int :: 0 <= k && k < idx2 ==> now - r.dialDataReqs[k] >= MINUTE)
+//@ ensures len(r.reqs) <= len(old(r.reqs))
+//@ ensures forall k int :: 0 <= k && k < len(r.reqs) ==> r.reqs[k] == old(r.reqs)[k + (len(old(r.reqs)) - len(r.reqs))]
+//@ ensures forall x *entry :: x.Time == old(x.Time) && x.PeerID == old(x.PeerID)
+//@ ensures old(sortedReqs(r)) ==> forall k int :: 0 <= k && k < len(r.reqs) ==> now - r.reqs[k].Time < MINUTE
+//@ ensures forall k int :: 0 <= k && k < len(old(r.reqs)) - len(r.reqs) ==> now - old(r.reqs[k].Time) >= MINUTE
+//@ ensures len(r.dialDataReqs) <= len(old(r.dialDataReqs)) &&
+//@         (forall k int :: 0 <= k && k < len(r.dialDataReqs) ==> r.dialDataReqs[k] == old(r.dialDataReqs)[k + (len(old(r.dialDataReqs)) - len(r.dialDataReqs))])
+//@ ensures old(sortedReqs(r)) ==> forall k int :: 0 <= k && k < len(r.dialDataReqs) ==> now - r.dialDataReqs[k] < MINUTE
+//@ ensures forall k int :: 0 <= k && k < len(old(r.dialDataReqs)) - len(r.dialDataReqs) ==> now - old(r.dialDataReqs[k]) >= MINUTE
+//@ ensures old(sortedReqs(r)) ==> sortedReqs(r)
+//@ modifies r.reqs, r.dialDataReqs, contents(r.peerReqs)
+
+//@ func (r *rateLimiter) Accept
+//@ prop C16
+//@ requires r.peerReqs == nil <==> r.inProgressReqs == nil
+//@ ensures result ==> !r.closed && len(r.reqs) <= r.RPM && old(r.inProgressReqs[p]) < r.MaxConcurrentRequestsPerPeer &&
+//@         r.inProgressReqs[p] == old(r.inProgressReqs[p]) + 1
+//@ ensures result ==> len(r.reqs) >= 1 && r.reqs[len(r.reqs)-1].Time == ret(now, 0, 0) && r.reqs[len(r.reqs)-1].PeerID == p
+//@ ensures result && old(sortedReqs(r)) ==> forall k int :: 0 <= k && k < len(r.reqs) - 1 ==> ret(now, 0, 0) - r.reqs[k].Time < MINUTE
+//@ ensures !result ==> forall q peer.ID :: r.inProgressReqs[q] == old(r.inProgressReqs[q])
+//@ ensures (r.peerReqs == nil <==> r.inProgressReqs == nil)
+//@ modifies r.reqs, r.dialDataReqs, r.peerReqs, r.inProgressReqs
+
+//@ func (r *rateLimiter) AcceptDialDataRequest
+//@ prop C16
+//@ requires r.peerReqs == nil <==> r.inProgressReqs == nil
+//@ ensures result ==> !r.closed && len(r.dialDataReqs) <= r.DialDataRPM && len(r.dialDataReqs) >= 1 &&
+//@         r.dialDataReqs[len(r.dialDataReqs)-1] == ret(now, 0, 0)
+//@ ensures result && old(sortedReqs(r)) ==> forall k int :: 0 <= k && k < len(r.dialDataReqs) - 1 ==> ret(now, 0, 0) - r.dialDataReqs[k] < MINUTE
+//@ ensures (r.peerReqs == nil <==> r.inProgressReqs == nil)
+//@ modifies r.reqs, r.dialDataReqs, r.peerReqs, r.inProgressReqs
+
+//@ func (r *rateLimiter) CompleteRequest
+//@ prop C16
+//@ ensures !r.closed && old(r.inProgressReqs[p]) >= 1 ==> r.inProgressReqs[p] == old(r.inProgressReqs[p]) - 1
+//@ ensures forall q peer.ID :: q != p ==> r.inProgressReqs[q] == old(r.inProgressReqs[q])
+//@ modifies r.inProgressReqs
+
+//@ func (as *server) serveDialRequest
+//@ prop C16
+//@ noinline dialBack
+//@ requires s != nil && as.limiter != nil && (as.limiter.peerReqs == nil <==> as.limiter.inProgressReqs == nil)
+//@ loop 0 invariant dialAddr != nil ==> 0 <= addrIdx && addrIdx < maxPeerAddresses && addrIdx < len(ret(GetAddrs, 0, 0)) &&
+//@         dialAddr == nth(multiaddr.NewMultiaddrBytes(ret(GetAddrs, 0, 0)[addrIdx]), 0) &&
+//@         nth(multiaddr.NewMultiaddrBytes(ret(GetAddrs, 0, 0)[addrIdx]), 1) == nil &&
+//@         (as.allowPrivateAddrs || manet.IsPublicAddr(dialAddr)) &&
+//@         as.dialerHost.Network().CanDial(p, dialAddr)
+//@ loop 0 invariant p == s.Conn().RemotePeer()
+//@ callsite dialBack#0 requires arg2 == s.Conn().RemotePeer()
+//@ callsite dialBack#0 requires arg3 != nil && 0 <= addrIdx && addrIdx < maxPeerAddresses && addrIdx < len(ret(GetAddrs, 0, 0)) &&
+//@         arg3 == nth(multiaddr.NewMultiaddrBytes(ret(GetAddrs, 0, 0)[addrIdx]), 0) &&
+//@         nth(multiaddr.NewMultiaddrBytes(ret(GetAddrs, 0, 0)[addrIdx]), 1) == nil
+//@ callsite dialBack#0 requires (as.allowPrivateAddrs || manet.IsPublicAddr(arg3)) && as.dialerHost.Network().CanDial(arg2, arg3)
+//@ callsite dialBack#0 requires called(Accept, 0) && ret(Accept, 0, 0)
+//@ callsite dialBack#0 requires called(dialDataRequestPolicy, 0) && arg(dialDataRequestPolicy, 0, 1) == arg3 &&
+//@         arg(dialDataRequestPolicy, 0, 0) == s.Conn().RemoteMultiaddr()
+//@ callsite dialBack#0 requires ret(dialDataRequestPolicy, 0, 0) ==> called(getDialData, 0) && ret(getDialData, 0, 0) == nil &&
+//@         called(AcceptDialDataRequest, 0) && ret(AcceptDialDataRequest, 0, 0) &&
+//@         ghost.consumed(s) >= old(ghost.consumed(s)) + minHandshakeSizeBytes
+//@ ensures called(Accept, 0) && ret(Accept, 0, 0) ==> called(CompleteRequest, 0) && arg(CompleteRequest, 0, 1) == s.Conn().RemotePeer()
+//@ ensures ncalls(dialBack, 0) <= 1
+//@ noframe
